@@ -115,10 +115,10 @@ pub trait Updater {
 
 pub struct NoUpdate;
 impl Updater for NoUpdate {
-    fn create<T: ObjectWrite>(&mut self, _obj: T) -> Result<RcRef<T>> { panic!() }
-    fn update<T: ObjectWrite>(&mut self, _old: PlainRef, _obj: T) -> Result<RcRef<T>> { panic!() }
+    fn create<T: ObjectWrite>(&mut self, _obj: T) -> Result<RcRef<T>> { bail!("NoUpdate cannot create an indirect object") }
+    fn update<T: ObjectWrite>(&mut self, _old: PlainRef, _obj: T) -> Result<RcRef<T>> { bail!("NoUpdate cannot update an indirect object") }
     fn promise<T: Object>(&mut self) -> PromisedRef<T> { panic!() }
-    fn fulfill<T: ObjectWrite>(&mut self, _promise: PromisedRef<T>, _obj: T) -> Result<RcRef<T>> { panic!() }
+    fn fulfill<T: ObjectWrite>(&mut self, _promise: PromisedRef<T>, _obj: T) -> Result<RcRef<T>> { bail!("NoUpdate cannot fulfill a promise") }
 }
 
 pub trait ObjectWrite {
